@@ -208,7 +208,8 @@ def _int_expr(e, env) -> str:
     if isinstance(e, ast.Name) and e.id in env:
         return env[e.id]
     if isinstance(e, ast.Call) and isinstance(e.func, ast.Name) and e.func.id == "len" and len(e.args) == 1 \
-            and _norm(e.args[0]) == "auth.public_key_bin":
+            and (_norm(e.args[0]) == "auth.public_key_bin"
+                 or (isinstance(e.args[0], ast.Name) and e.args[0].id in env.get("__key_aliases__", ()))):
         return "(keyBin.length : Int)"
     raise TranslatorError(f"unsupported slice bound: {_norm(e)}")
 
@@ -221,6 +222,95 @@ def _slice_expr(e, env) -> str:
     lo = "none" if e.slice.lower is None else f"(some {_int_expr(e.slice.lower, env)})"
     hi = "none" if e.slice.upper is None else f"(some {_int_expr(e.slice.upper, env)})"
     return f"(pySlice data {lo} {hi})"
+
+
+def module_int_constants(tree) -> dict:
+    """module-level `NAME = <int literal>` bound exactly once in the whole module (no other assignment, augmented
+    assignment, `global`, loop target … of that name anywhere): a named constant may be read as its literal value"""
+    cand = {}
+    for st in tree.body:
+        if isinstance(st, ast.Assign) and len(st.targets) == 1 and isinstance(st.targets[0], ast.Name) \
+                and isinstance(st.value, ast.Constant) and type(st.value.value) is int:
+            cand[st.targets[0].id] = st.value.value
+        elif isinstance(st, ast.AnnAssign) and isinstance(st.target, ast.Name) and st.value is not None \
+                and isinstance(st.value, ast.Constant) and type(st.value.value) is int:
+            cand[st.target.id] = st.value.value
+    stores: dict[str, int] = {}
+    for n in ast.walk(tree):
+        if isinstance(n, ast.Name) and isinstance(n.ctx, (ast.Store, ast.Del)):
+            stores[n.id] = stores.get(n.id, 0) + 1
+        elif isinstance(n, (ast.Global, ast.Nonlocal)):
+            for nm in n.names:
+                stores[nm] = stores.get(nm, 0) + 2
+        elif isinstance(n, ast.arg):
+            stores[n.arg] = stores.get(n.arg, 0) + 2          # shadowed by a parameter somewhere: do not touch
+    return {k: v for k, v in cand.items() if stores.get(k, 0) == 1}
+
+
+class _Subst(ast.NodeTransformer):
+    """replace loaded names by expressions (named constants -> literals, helper parameters -> call arguments)"""
+
+    def __init__(self, mapping: dict):
+        self.mapping = mapping
+
+    def visit_Name(self, node):  # noqa: N802
+        if isinstance(node.ctx, ast.Load) and node.id in self.mapping:
+            rep_ = self.mapping[node.id]
+            return ast.copy_location(ast.Constant(rep_) if isinstance(rep_, int) else ast.parse(rep_, mode="eval").body, node)
+        return node
+
+
+def resolve_constants(tree):
+    consts = module_int_constants(tree)
+    if consts:
+        tree = _Subst(consts).visit(tree)
+        ast.fix_missing_locations(tree)
+    return tree
+
+
+def inline_helpers(stmts: list, tree, where: str) -> list:
+    """`a, b = helper(x, y, z)` where `helper` is a module-level function of the same file whose body is straight-line
+    (assignments, `if …: raise`, expression statements) and ends in `return a, b`: replaced by the helper's statements with
+    the parameters substituted by the arguments and the returned names renamed to the targets.  The inlined statements are
+    then translated like any others, so what the helper does is decided by the same guard."""
+    helpers = {n.name: n for n in tree.body if isinstance(n, ast.FunctionDef)}
+    out = []
+    for st in stmts:
+        call = st.value if isinstance(st, ast.Assign) and len(st.targets) == 1 and isinstance(st.value, ast.Call) else None
+        if call is None or not isinstance(call.func, ast.Name) or call.func.id not in helpers or call.keywords:
+            out.append(st)
+            continue
+        fn = helpers[call.func.id]
+        params = [a.arg for a in fn.args.args]
+        if fn.args.vararg or fn.args.kwarg or fn.args.kwonlyargs or len(params) != len(call.args) or fn.decorator_list:
+            raise TranslatorError(f"{where}: cannot inline helper {fn.name}: signature / call shape")
+        body = _stmts(fn)
+        if not body or not isinstance(body[-1], ast.Return) or body[-1].value is None:
+            raise TranslatorError(f"{where}: cannot inline helper {fn.name}: no final return")
+        for b in body[:-1]:
+            if any(isinstance(x, (ast.Return, ast.FunctionDef, ast.AsyncFunctionDef, ast.Lambda, ast.While, ast.For, ast.Try,
+                                  ast.With, ast.Yield, ast.Await)) for x in ast.walk(b)):
+                raise TranslatorError(f"{where}: cannot inline helper {fn.name}: body is not straight-line")
+        ret = body[-1].value
+        ret_names = [e.id for e in ret.elts] if isinstance(ret, ast.Tuple) and all(isinstance(e, ast.Name) for e in ret.elts) \
+            else [ret.id] if isinstance(ret, ast.Name) else None
+        tgt = st.targets[0]
+        tgt_names = [e.id for e in tgt.elts] if isinstance(tgt, ast.Tuple) and all(isinstance(e, ast.Name) for e in tgt.elts) \
+            else [tgt.id] if isinstance(tgt, ast.Name) else None
+        if ret_names is None or tgt_names is None or len(ret_names) != len(tgt_names):
+            raise TranslatorError(f"{where}: cannot inline helper {fn.name}: returned value is not a tuple of locals")
+        mapping = {p_: _norm(a_) for p_, a_ in zip(params, call.args)}
+        import copy
+        for b in body[:-1]:
+            nb = _Subst(mapping).visit(copy.deepcopy(b))
+            if ret_names != tgt_names:
+                ren = dict(zip(ret_names, tgt_names))
+                for x in ast.walk(nb):
+                    if isinstance(x, ast.Name) and x.id in ren:
+                        x.id = ren[x.id]
+            ast.fix_missing_locations(nb)
+            out.append(nb)
+    return out
 
 
 def _assigned_names(fn) -> dict:
@@ -259,7 +349,12 @@ def translate_verify_signature(tree) -> str:
     if args != ["self", "auth", "data"]:
         raise TranslatorError(f"_verify_signature parameters changed: {args}")
     ec_names = {"default_eccrypto"}
-    int_env: dict[str, str] = {}
+    key_aliases: set = set()          # locals that hold auth.public_key_bin (bound once, see below)
+    int_env: dict = {"__key_aliases__": key_aliases}
+    rebound = _assigned_names(fn)
+
+    def is_key_bin(a) -> bool:
+        return _norm(a) == "auth.public_key_bin" or (isinstance(a, ast.Name) and a.id in key_aliases)
     bytes_env: dict[str, str] = {}
     lets = []
     have_key = None
@@ -270,10 +365,13 @@ def translate_verify_signature(tree) -> str:
             if isinstance(val, ast.Name) and val.id in ec_names:
                 ec_names.add(tgt)
                 continue
+            if _norm(val) == "auth.public_key_bin" and rebound.get(tgt, 0) == 1:
+                key_aliases.add(tgt)           # `sender_key_bin = auth.public_key_bin`: a hoisted sub-expression
+                continue
             if isinstance(val, ast.Call) and isinstance(val.func, ast.Attribute) and isinstance(val.func.value, ast.Name) \
                     and val.func.value.id in ec_names:
                 m = val.func.attr
-                if m == "key_from_public_bin" and [_norm(a) for a in val.args] == ["auth.public_key_bin"]:
+                if m == "key_from_public_bin" and len(val.args) == 1 and is_key_bin(val.args[0]):
                     have_key = tgt
                     continue
                 if m == "get_signature_length" and have_key and [_norm(a) for a in val.args] == [have_key]:
@@ -289,7 +387,7 @@ def translate_verify_signature(tree) -> str:
             ret = st.value
             continue
         raise TranslatorError(f"unsupported statement in _verify_signature: {_norm(st)[:80]}")
-    if have_key is None or "n" not in int_env.values() or ret is None:
+    if have_key is None or "n" not in [v for k, v in int_env.items() if k != "__key_aliases__"] or ret is None:
         raise TranslatorError("_verify_signature: key parse, signature length or return missing")
     if not (isinstance(ret, ast.Tuple) and len(ret.elts) == 2):
         raise TranslatorError("_verify_signature must return (valid, remainder)")
@@ -432,7 +530,7 @@ def translate_wrappers(tree) -> str:
     for deco, lean in (("lazy_wrapper", "lazyWrapper"), ("lazy_wrapper_wd", "lazyWrapperWd"),
                        ("lazy_wrapper_unsigned", "lazyWrapperUnsigned")):
         wr = _wrapper_body(tree, deco)
-        ops = _ops_of(_stmts(wr), "payloads", deco)
+        ops = _ops_of(inline_helpers(_stmts(wr), tree, deco), "payloads", deco)
         out.append(f"/-- generated from the body of {deco}(...).decorator.wrapper -/")
         out.append(f"def {lean} : List Op := [{', '.join(ops)}]")
     # lazy_wrapper_unsigned_wd delegates to lazy_wrapper_unsigned and passes data=data
@@ -448,7 +546,7 @@ def translate_wrappers(tree) -> str:
     out.append("def lazyWrapperUnsignedWd : List Op := lazyWrapperUnsigned.map "
                "(fun o => match o with | .callAddr => .callAddrData | o => o)")
     fn = _func(tree, "_ez_unpack_auth", "EZPackOverlay")
-    ops = _ops_of(_stmts(fn), "fmt", "_ez_unpack_auth")
+    ops = _ops_of(inline_helpers(_stmts(fn), tree, "_ez_unpack_auth"), "fmt", "_ez_unpack_auth")
     out.append("/-- generated from EZPackOverlay._ez_unpack_auth -/")
     out.append(f"def ezUnpackAuth : List Op := [{', '.join(ops)}]")
     return "\n".join(out)
@@ -484,7 +582,7 @@ def translate_pack(tree) -> str:
 
 # ------------------------------------------------------------------------------------------------ E. on_packet
 def translate_on_packet() -> str:
-    tree = ast.parse((REPO / "ipv8/community.py").read_text())
+    tree = resolve_constants(ast.parse((REPO / "ipv8/community.py").read_text()))
     fn = _func(tree, "on_packet", "Community")
     src = [_norm(s) for s in _stmts(fn)]
 
@@ -613,8 +711,14 @@ def check_crypto_and_peer() -> str:
     if len(tries) != 1 or not isinstance(_stmts(fn)[-1], ast.Try):
         raise TranslatorError("ECCrypto.is_valid_signature: expected `try: return ec_key.verify(signature, data)` as last statement")
     tr = tries[0]
-    if not (len(tr.body) == 1 and isinstance(tr.body[0], ast.Return)
-            and "ec_key.verify(signature, data)" in _norm(tr.body[0])):
+    ok_direct = (len(tr.body) == 1 and isinstance(tr.body[0], ast.Return) and not tr.orelse
+                 and "ec_key.verify(signature, data)" in _norm(tr.body[0]))
+    # `try: v = ec_key.verify(…) except …: return False else: return v` — the same thing with a narrower try body
+    ok_else = (len(tr.body) == 1 and isinstance(tr.body[0], ast.Assign) and len(tr.body[0].targets) == 1
+               and isinstance(tr.body[0].targets[0], ast.Name) and "ec_key.verify(signature, data)" in _norm(tr.body[0].value)
+               and len(tr.orelse) == 1 and isinstance(tr.orelse[0], ast.Return)
+               and _norm(tr.orelse[0].value) in (tr.body[0].targets[0].id, f"bool({tr.body[0].targets[0].id})"))
+    if not (ok_direct or ok_else) or tr.finalbody:
         raise TranslatorError(f"ECCrypto.is_valid_signature: verification call changed: {_norm(tr.body[0])[:80]}")
     for hnd in tr.handlers:
         if not (len(hnd.body) == 1 and _norm(hnd.body[0]) == "return False"):
@@ -666,7 +770,7 @@ def translate(tables=None):
     """-> (lean source, info dict with the live tables for the harness)"""
     if tables is None:
         tables = collect_tables()
-    tree = ast.parse((REPO / LAZY).read_text())
+    tree = resolve_constants(ast.parse((REPO / LAZY).read_text()))
     spec = load_spec()
     parts = [
         "/- GENERATED by tools/gen_c01.py from /repo on every run — do not edit. -/",
